@@ -1050,7 +1050,7 @@ SimpleString StringFromOrdinalNumber(unsigned int number)
 {
     const char* suffix = "th";
 
-    if ((number < 11) || (number > 13)) {
+    if (((number % 100) < 11) || ((number % 100) > 13)) {
         unsigned int const onesDigit = number % 10;
         if (3 == onesDigit) {
             suffix = "rd";
